@@ -11,7 +11,8 @@ Rng(s) == {s[i] : i \in DOMAIN s}
 Cur(ev) == l <= Len(TraceLog) /\ E.ev = ev /\ l' = l + 1
 \* everything stored when DeleteTopic was exercised: the keys of all names accepted by that store
 EtcdUniverse == UNION {Rng(TraceLog[i].etcd) : i \in {j \in DOMAIN TraceLog : TraceLog[j].accBy.etcd}}
-MemUniverse == UNION {Rng(TraceLog[i].mem) \cup Rng(TraceLog[i].memc) : i \in {j \in DOMAIN TraceLog : TraceLog[j].accBy.mem}}
+MemUniverse == UNION {Rng(TraceLog[i].mem) : i \in {j \in DOMAIN TraceLog : TraceLog[j].accBy.mem}}
+MemCUniverse == UNION {Rng(TraceLog[i].memc) : i \in {j \in DOMAIN TraceLog : TraceLog[j].accBy.mem}}
 TInit == Init /\ l = 1 /\ TLCSet(7, 0)
 TName == /\ Cur("Name") /\ UNCHANGED vars
          /\ LET k == KeysOf(E.segs) IN
@@ -21,6 +22,7 @@ TName == /\ Cur("Name") /\ UNCHANGED vars
             /\ Rng(E.etcd) = k.etcd /\ Rng(E.lease) = k.lease /\ Rng(E.mem) = k.mem /\ Rng(E.memc) = k.memc
             /\ Rng(E.delEtcd) = (IF E.accBy.etcd THEN EtcdDeleted(k.name, EtcdUniverse) ELSE {})
             /\ Rng(E.delMem) = (IF E.accBy.mem THEN MemDeleted(k.name, MemUniverse) ELSE {})
+            /\ Rng(E.delMemC) = (IF E.accBy.mem THEN MemCDeleted(k.name, MemCUniverse) ELSE {})
 Consumed == TLCSet(7, IF TLCGet(7) < l THEN l ELSE TLCGet(7))
 TNext == TName /\ Consumed
 TSpec == TInit /\ [][TNext]_tvars
